@@ -35,19 +35,50 @@ def _noise_mode_reads(ctx, prog, R):
     for t, v, s, k in iter_stores(init.node):
         if isinstance(t, ast.Attribute) and isinstance(t.value, ast.Name) and t.value.id == "self" and isinstance(v, ast.Name) and "noise" in v.id:
             frozen.add(t.attr)
+    def callees(stmts):
+        out = set()
+        for st in stmts:
+            for c in ast.walk(st):
+                if isinstance(c, ast.Call):
+                    nm = canon(c.func).split(".")[-1]
+                    if any(hasattr(t, "node") for t in prog.resolve_call(cur_fn[0], c)) or nm in ("predict", "update", "fit"):
+                        out.add(nm)
+        return out
+
+    cur_fn = [None]
+    level_guarded, frozen_tests = set(), []
     for fn in prog.functions():
         if fn.cls is not R.bads or fn.name == "__init__":
             continue
+        cur_fn[0] = fn
         for n in ast.walk(fn.node):
-            test = n.test if isinstance(n, (ast.If, ast.While, ast.IfExp)) else None
+            test = n.test if isinstance(n, (ast.If, ast.While)) else None
             if test is None:
                 continue
             reads_level = any(canon(x) == "OS[uncertainty_handling_level]" for x in ast.walk(test))
             bad = [x for x in ast.walk(test) if isinstance(x, ast.Attribute) and x.attr in frozen and canon(x.value) in ("LOG", "self." + (R.logger_attr or "function_logger"))]
             if bad:
-                ctx.fail(fn, n, f"the branch reads the logger's construction-time flag '{canon(bad[0])}' to decide the noise mode: a target detected as noisy at start-up is handled as deterministic here", construct=f"noise mode from {canon(bad[0])}")
+                frozen_tests.append((fn, n, bad[0], callees(n.body + n.orelse)))
             elif reads_level:
+                level_guarded |= callees(n.body + n.orelse)
                 ctx.ok(fn, n, "noise mode decided by OS[uncertainty_handling_level]")
+    def only_column_or_display(fn, n, b):
+        """the flag says whether the SD column exists: a branch that only touches that column (or only logs) is its legitimate use."""
+        lg = canon(b.value)
+        for st in n.body + n.orelse:
+            touches_col = any(isinstance(x, ast.Attribute) and x.attr == "S" and canon(x.value) == lg for x in ast.walk(st))
+            display = isinstance(st, ast.Expr) and isinstance(st.value, ast.Call) and isinstance(st.value.func, ast.Attribute) and st.value.func.attr in ("debug", "info", "warning", "error")
+            if not (touches_col or display or isinstance(st, ast.Pass)):
+                return False
+        return True
+
+    for fn, n, b, cs in frozen_tests:
+        shared = sorted(cs & level_guarded)
+        if only_column_or_display(fn, n, b) and not shared:
+            ctx.ok(fn, n, f"'{canon(b)}' guards access to the SD column / a log message only")
+        else:
+            extra = f" (the same operations - {', '.join(shared[:3])} - are elsewhere guarded by the run-time level)" if shared else ""
+            ctx.fail(fn, n, f"the branch reads the logger's construction-time flag '{canon(b)}' to decide the noise mode{extra}: a target detected as noisy at start-up is handled as deterministic here", construct=f"noise mode from {canon(b)}")
 
 
 def check(ctx):
